@@ -63,7 +63,13 @@ def run(ctx):
             add(e, bytes(rng.randrange(256) for _ in range(rng.choice([2, 3, 4, 7, 8, 12, 20, 40]))))
     # truncation of valid packets at every offset (sampled in the quick tier)
     for (e, b) in valid[:(120 if quick else 100000)]:
-        cuts = range(len(b)) if not quick else sorted(set(rng.randrange(len(b)) for _ in range(min(len(b), 12))))
+        if quick:
+            cuts = sorted(set(rng.randrange(len(b)) for _ in range(min(len(b), 12))))
+        elif len(b) <= 256:
+            cuts = range(len(b))
+        else:
+            # long packets: every offset of the first 96 and the last 32 octets (where the headers and trailers are), 128 sampled ones between
+            cuts = sorted(set(range(96)) | set(range(len(b) - 32, len(b))) | set(rng.sample(range(len(b)), 128)))
         for k in cuts:
             add(e, b[:k])
     # structure-aware mutations
@@ -109,6 +115,33 @@ def run(ctx):
             add('Dot11::from_bytes', bhdr + bytes([0, 3]) + b'abc' + bytes([code, ln]) + data)
             nn_opt = 0
             n_opt += 2
+    # next-protocol dispatch with almost nothing behind it: every EtherType / IP protocol / well-known port libtins knows, followed by
+    # 0..12 octets (a length field larger than what is there, a type octet right behind the end, ...)
+    def short(nb):
+        return bytes(rng.choice([0, 1, 3, 0x5f, 0xff, rng.randrange(256)]) for _ in range(nb))
+    for et in (0x0800, 0x86dd, 0x0806, 0x8100, 0x88a8, 0x888e, 0x8847, 0x8863, 0x8864, 0x88cc, 0x0026, 0x0003):
+        for nb in range(0, 13):
+            for rep in range(1 if quick else 6):
+                add('EthernetII', bytes(12) + struct.pack('>H', et) + short(nb))
+                add('SLL', struct.pack('>HHH', 0, 1, 6) + bytes(8) + struct.pack('>H', et) + short(nb))
+                n_opt += 2
+    for proto in (1, 2, 4, 6, 17, 41, 47, 50, 51, 58, 132):
+        for nb in range(0, 13):
+            body = short(nb)
+            ip4 = struct.pack('>BBHHHBBH', 0x45, 0, 20 + nb, 1, 0, 64, proto, 0) + bytes([10, 0, 0, 1, 10, 0, 0, 2]) + body
+            ip6 = struct.pack('>IHBB', 6 << 28, nb, proto, 64) + bytes(32) + body
+            add('IP', ip4); add('IPv6', ip6)
+            n_opt += 2
+    for port in (53, 67, 68, 546, 547, 4789, 5353, 1812):
+        for nb in range(0, 13):
+            body = short(nb)
+            add('UDP', struct.pack('>HHHH', 40000, port, 8 + nb, 0) + body)
+            add('UDP', struct.pack('>HHHH', port, 40000, 8 + nb, 0) + body)
+            n_opt += 2
+    for dsap in (0x42, 0xaa, 0xf0, 0x00):
+        for nb in range(0, 10):
+            add('Dot3', bytes(12) + struct.pack('>H', 3 + nb) + bytes([dsap, dsap, 3]) + short(nb))
+            n_opt += 1
     # DHCPv6 class options (user class 15: entries of 16-bit length + data; vendor class 16: enterprise number first): well-formed
     # entry lists followed by 0..3 stray octets, the whole longer than the 8 octets an option keeps in place (so that the data
     # sits in its own heap block), read through the typed accessors
